@@ -187,6 +187,9 @@ func (e *Env) Environ() []string {
 		"GIT_COMMITTER_NAME=Verif Committer", "GIT_COMMITTER_EMAIL=committer@example.com",
 		"PATH=" + bin + ":" + BinDir + ":/usr/local/bin:/usr/bin:/bin",
 	}
+	if d := os.Getenv("GOCOVERDIR"); d != "" { // coverage survey builds (tools/coverage.sh) only
+		env = append(env, "GOCOVERDIR="+d)
+	}
 	if e.Race {
 		env = append(env, "GORACE=halt_on_error=0 exitcode=0 log_path="+filepath.Join(e.Root, "race.log"))
 	}
